@@ -79,15 +79,21 @@ def run(tier, replay=None):
             f.write(json.dumps(rec) + "\n")
         scale_bases = 1 if obj.get("leg") == "scale" else 0
     else:
-        # 1. design level, no deviation; action coverage (vacuity guard) on a smaller bound, -coverage is slow
-        rc = vlib.tlc("ConfigFile", write_cfg(wd, "mc_cov.cfg", 3, [], False), PID, workers=workers, timeout=600,
-                      coverage=True)
-        if not rc["violated"]:
-            vlib.require_actions_covered(rc, ACTIONS)
+        # 1. design level, no deviation. TLC's own action coverage (-coverage costs ~90 s of start-up here) is only
+        #    taken in the thorough tier; in both tiers the replayer counts, per editing action, the generated files
+        #    that witness it (see `action_hits` below), which is the vacuity guard that matters for the generator.
+        runs = []
+        if thorough:
+            rc = vlib.tlc("ConfigFile", write_cfg(wd, "mc_cov.cfg", 3, [], False), PID, workers=workers, timeout=900,
+                          coverage=True)
+            if not rc["violated"]:
+                vlib.require_actions_covered(rc, ACTIONS)
+            runs.append(rc)
         r = vlib.tlc("ConfigFile", write_cfg(wd, "mc.cfg", size_mc, [], False), PID, workers=workers,
                      timeout=3000 if thorough else 600, xmx="6g" if thorough else "4g")
         rep.add_tlc(r)
-        for x in (rc, r):
+        runs.append(r)
+        for x in runs:
             if x["violated"]:
                 rep.violation("spec:" + x["violated"], "the specification itself violates %s" % x["violated"], x["out"])
                 break
@@ -125,6 +131,9 @@ def run(tier, replay=None):
         missing = [c for c in CONSTRAINTS if not summ["constraint_hits"].get(c)]
         if missing:
             raise vlib.ToolError("vacuous generator run: constraints never violated by any file: %s" % missing)
+        idle = [a for a in ACTIONS if not summ["action_hits"].get(a)]
+        if idle:
+            raise vlib.ToolError("vacuous generator run: editing actions witnessed by no generated file: %s" % idle)
         if summ["scale_runs"] == 0:
             raise vlib.ToolError("vacuous run: the SIZE leg found no file to replicate")
     rep.cov["traces_validated_against_impl"] = summ["runs"] + summ["scale_runs"]
@@ -134,6 +143,7 @@ def run(tier, replay=None):
     rep.add_samples(summ["samples"], 5)
     rep.extra["valid_files"] = summ["valid_files"]
     rep.extra["invalid_files_by_constraint"] = summ["constraint_hits"]
+    rep.extra["files_witnessing_action"] = summ["action_hits"]
     rep.extra["size_axis"] = {"replications": SCALE_NS, "runs": summ["scale_runs"],
                               "largest_message_list": summ["scale_max_messages"]}
     if summ["deviation_explained"]:
